@@ -246,10 +246,15 @@ type rtIn struct {
 	prefix, orderby string
 	where           *node
 	limit, offset   int
+	precheck        bool // history: the query object is checked (and printed) once before the condition is set
 }
 
 func (in *rtIn) build() *query.Query {
 	q := query.New(in.prefix)
+	if in.precheck {
+		_, _ = q.Check()
+		_ = q.Print()
+	}
 	if in.where != nil {
 		q.Where(in.where.build())
 	}
@@ -295,6 +300,7 @@ type rtOut struct {
 	d2, p2       string
 	oracle       string
 	keys, regexs []string
+	unstable     bool
 }
 
 // runRT performs build → Check → Print → ParseQuery → Print on the real code.
@@ -312,6 +318,10 @@ func runRT(in *rtIn) *rtOut {
 	o.q1 = q
 	o.d1 = query.VerifDump(q)
 	o.p1 = q.Print()
+	// the same object again: Check and Print are repeatable
+	if _, err := q.Check(); err != nil || q.Print() != o.p1 || query.VerifDump(q) != o.d1 {
+		o.unstable = true
+	}
 	toks = append(toks, tokensOf(o.p1)...)
 	o.oracle = oracleFor(toks)
 	dumpMentions(o.d1, keys, regexes)
@@ -322,6 +332,9 @@ func runRT(in *rtIn) *rtOut {
 		o.q2 = q2
 		o.d2 = query.VerifDump(q2)
 		o.p2 = q2.Print()
+		if q2.Print() != o.p2 {
+			o.unstable = true
+		}
 		dumpMentions(o.d2, keys, regexes)
 	}
 	o.keys, o.regexs = sortedSet(keys), sortedSet(regexes)
@@ -371,6 +384,10 @@ func parseRT(f []string) (*rtIn, bool) {
 	if in.prefix, ok = unhx(f[0]); !ok {
 		return nil, false
 	}
+	if strings.HasPrefix(f[1], "C:") {
+		in.precheck = true
+		f[1] = f[1][2:]
+	}
 	if f[1] != "-" {
 		if in.where, ok = parseNode(f[1]); !ok {
 			return nil, false
@@ -393,6 +410,9 @@ func rtLine(in *rtIn, jsons []string) (string, *rtOut, bool) {
 	w := "-"
 	if in.where != nil {
 		w = in.where.spec()
+	}
+	if in.precheck {
+		w = "C:" + w
 	}
 	o := runRT(in)
 	recs, rm, ok := recsField(jsons, o.keys, o.regexs)
@@ -535,6 +555,9 @@ func (exec) do(line string) string {
 			}
 			if want != line {
 				return "bad-tables"
+			}
+			if o.unstable {
+				return "unstable"
 			}
 			if o.checkErr != nil {
 				return errClass(o.checkErr)
